@@ -413,3 +413,41 @@ def jsonable(x):
     except ImportError:
         pass
     return repr(x)
+
+
+# ---------------------------------------------------------------------------------------------
+# draw log of the shimmed engine build (DESIGN §5.3)
+# ---------------------------------------------------------------------------------------------
+def draws_clear(lib):
+    lib.verif_draw_clear()
+
+
+def draws_get(lib):
+    """[(kind, a, b, r)] — kind 'unif'(a,b) | 'pois'(mean=a) | 'norm'(mean=a, sd=b); r = the value drawn"""
+    import ctypes
+    n = lib.verif_draw_count()
+    k, a, b, r = ctypes.c_int(), ctypes.c_double(), ctypes.c_double(), ctypes.c_double()
+    out = []
+    names = {0: "unif", 1: "pois", 2: "norm"}
+    for i in range(n):
+        lib.verif_draw_get(i, ctypes.byref(k), ctypes.byref(a), ctypes.byref(b), ctypes.byref(r))
+        out.append((names[k.value], a.value, b.value, r.value))
+    return out
+
+
+def run_child(code, timeout=60, kind_env=None):
+    """run a Python snippet in a sandboxed child (/venv python, REPO/src on the path); returns
+    (status, stdout) with status in ok | crash:<signal or rc> | timeout.  Used for calls that may
+    hang or kill the process (lifecycle histories, sub-molecule redistribution)."""
+    env = dict(os.environ)
+    env["PYTHONPATH"] = os.path.join(REPO, "src") + os.pathsep + os.path.join(VERIF, "harness")
+    if kind_env:
+        env.update(kind_env)
+    try:
+        p = subprocess.run([sys.executable, "-c", code], stdout=subprocess.PIPE, stderr=subprocess.PIPE, text=True,
+                           timeout=timeout, env=env)
+    except subprocess.TimeoutExpired as e:
+        return "timeout", (e.stdout or b"").decode() if isinstance(e.stdout, bytes) else (e.stdout or "")
+    if p.returncode == 0:
+        return "ok", p.stdout
+    return "crash:%d" % p.returncode, p.stdout + "\n" + p.stderr[-1500:]
